@@ -44,17 +44,33 @@ type config struct {
 	Accept string `json:"accept"`
 }
 
+// CSP as the spec describes it: header lines > comma-separated policies > directives > sources.
+type cspSrc struct {
+	Kind  string `json:"kind"` // "nonce" | "other"
+	N     string `json:"n"`    // symbolic nonce name
+	Comma bool   `json:"comma"`
+}
+type cspDir struct {
+	Name string   `json:"name"`
+	Srcs []cspSrc `json:"srcs"`
+}
+type specNonce struct {
+	N       string `json:"n"`       // symbolic name, "" = none
+	Mangled bool   `json:"mangled"` // the policy separator stuck to the token
+}
+
 // tcase is one terminal state printed by TLC: the configuration and the response the spec predicts.
 type tcase struct {
-	Cfg      config   `json:"cfg"`
-	Path     []string `json:"path"`
-	MustPass bool     `json:"mustpass"`
-	Inserted int      `json:"inserted"`
-	Nonce    string   `json:"nonce"`
-	Nonces   []string `json:"nonces"`
-	Enc      string   `json:"enc"`
-	Cl       string   `json:"cl"`
-	Bytes    string   `json:"bytes"`
+	Cfg      config       `json:"cfg"`
+	Path     []string     `json:"path"`
+	MustPass bool         `json:"mustpass"`
+	Inserted int          `json:"inserted"`
+	Nonce    specNonce    `json:"nonce"`
+	Nonces   []string     `json:"nonces"`
+	CspLines [][][]cspDir `json:"csplines"`
+	Enc      string       `json:"enc"`
+	Cl       string       `json:"cl"`
+	Bytes    string       `json:"bytes"`
 }
 
 // prepared is what the backend sends for one exchange.
@@ -199,11 +215,26 @@ func document(shape string, size int, rng *rand.Rand) []byte {
 }
 
 type cspConcrete struct {
-	header string
-	nonces map[string]string // symbolic -> concrete
+	headers []string          // one entry per Content-Security-Policy header line
+	nonces  map[string]string // symbolic -> concrete
 }
 
-func cspFor(shape string, rng *rand.Rand) cspConcrete {
+func (c cspConcrete) String() string { return strings.Join(c.headers, "  ||  ") }
+
+var otherSources = map[string][]string{
+	"default-src":     {"'self'", "'none'"},
+	"img-src":         {"*", "data:"},
+	"script-src":      {"'self'", "https://cdn.example.com", "'strict-dynamic'", "'unsafe-inline'"},
+	"style-src":       {"'self'"},
+	"object-src":      {"'none'"},
+	"connect-src":     {"'self'"},
+	"font-src":        {"'self'"},
+	"frame-ancestors": {"'self'", "'none'"},
+}
+
+// cspFor renders the spec's abstract policy structure as concrete header lines: fresh nonce values per
+// exchange, seeded choice of the non-nonce sources and of the white space around separators.
+func cspFor(lines [][][]cspDir, rng *rand.Rand) cspConcrete {
 	tok := func() string {
 		const al = "ABCDEFGHIJKLMNOPQRSTUVWXYZabcdefghijklmnopqrstuvwxyz0123456789+/"
 		b := make([]byte, 16+rng.Intn(8))
@@ -212,25 +243,36 @@ func cspFor(shape string, rng *rand.Rand) cspConcrete {
 		}
 		return string(b) + "=="
 	}
-	n1, n2, s1 := tok(), tok(), tok()
-	c := cspConcrete{nonces: map[string]string{"N1": n1, "N2": n2}}
-	switch shape {
-	case "none":
-	case "scriptsrc":
-		c.header = "default-src 'self'; img-src *; script-src 'self' 'nonce-" + n1 + "' https://cdn.example.com; style-src 'self' 'nonce-" + s1 + "'"
-	case "several":
-		c.header = "script-src 'strict-dynamic' 'nonce-" + n1 + "' 'nonce-" + n2 + "'; style-src 'nonce-" + s1 + "'; object-src 'none'"
-	case "otheronly":
-		c.header = "default-src 'self'; style-src 'self' 'nonce-" + s1 + "'; img-src data:"
-	case "nononce":
-		c.header = "default-src 'none'; script-src 'self' https://cdn.example.com 'unsafe-inline'; connect-src 'self'"
-	case "defaultfirst":
-		// a nonce in default-src (which does not govern scripts once script-src is present) in front of script-src
-		c.header = "default-src 'self' 'nonce-" + s1 + "'; script-src 'self' 'nonce-" + n1 + "'; img-src *"
-	case "afterother":
-		c.header = "style-src 'nonce-" + s1 + "'  ;  font-src 'self';script-src   'nonce-" + n1 + "'"
-	default:
-		vhlib.Fatal("unknown csp shape %q", shape)
+	c := cspConcrete{nonces: map[string]string{}}
+	dirSep := []string{"; ", ";", "  ;  "}[rng.Intn(3)]
+	srcSep := []string{" ", " ", "   "}[rng.Intn(3)]
+	for _, line := range lines {
+		var pols []string
+		for _, pol := range line {
+			var dirs []string
+			for _, d := range pol {
+				parts := []string{d.Name}
+				k := 0
+				for _, src := range d.Srcs {
+					if src.Kind == "nonce" {
+						if _, ok := c.nonces[src.N]; !ok {
+							c.nonces[src.N] = tok()
+						}
+						parts = append(parts, "'nonce-"+c.nonces[src.N]+"'")
+						continue
+					}
+					alts := otherSources[d.Name]
+					if len(alts) == 0 {
+						vhlib.Fatal("no concrete sources for directive %q", d.Name)
+					}
+					parts = append(parts, alts[(k+rng.Intn(len(alts)))%len(alts)])
+					k++
+				}
+				dirs = append(dirs, strings.Join(parts, srcSep))
+			}
+			pols = append(pols, strings.Join(dirs, dirSep))
+		}
+		c.headers = append(c.headers, strings.Join(pols, ", "))
 	}
 	return c
 }
@@ -383,11 +425,26 @@ func (e *env) nextID() string {
 }
 
 type outcome struct {
-	invariant string // "" = property holds
-	detail    string
-	drift     string
-	inserted  int
-	rep       report
+	nonceFailure    bool   // the failing invariant is about the nonce of the reload script
+	nonceAsModelled bool   // the real nonce attribute is what the spec's nonce extraction (as configured) yields
+	invariant       string // "" = property holds
+	detail          string
+	drift           string
+	inserted        int
+	rep             report
+}
+
+// signature names the root cause as the spec names it: the branch of modifyResponse's decision, or -- for a
+// nonce failure that the spec's nonce extraction reproduces exactly -- the branch of that extraction.
+func signature(tc tcase, o outcome) string {
+	if o.nonceFailure && o.nonceAsModelled {
+		for _, p := range tc.Path {
+			if strings.HasPrefix(p, "ParseNonce.") {
+				return p + ":" + o.invariant
+			}
+		}
+	}
+	return decideBranch(tc.Path) + ":" + o.invariant
 }
 
 func decideBranch(path []string) string {
@@ -404,7 +461,7 @@ func (e *env) exchange(tc tcase, size int, rng *rand.Rand) outcome {
 	plain := document(c.Body, size, rng)
 	wire, tok := encode(c.Enc, plain, rng)
 	ct, noCT := contentType(c.Ct, rng)
-	csp := cspFor(c.Csp, rng)
+	csp := cspFor(tc.CspLines, rng)
 	p := &prepared{header: http.Header{}, noCT: noCT, wire: wire, plain: plain, encTok: tok}
 	if !noCT {
 		p.header.Set("Content-Type", ct)
@@ -412,8 +469,8 @@ func (e *env) exchange(tc tcase, size int, rng *rand.Rand) outcome {
 	if tok != "" {
 		p.header.Set("Content-Encoding", tok)
 	}
-	if csp.header != "" {
-		p.header.Set("Content-Security-Policy", csp.header)
+	for _, h := range csp.headers {
+		p.header.Add("Content-Security-Policy", h)
 	}
 	if c.Skip {
 		p.header.Set("templ-skip-modify", "true")
@@ -431,7 +488,7 @@ func (e *env) exchange(tc tcase, size int, rng *rand.Rand) outcome {
 	if c.Req == "htmx" {
 		req.Header.Set("HX-Request", "true")
 	}
-	o := outcome{rep: report{Cfg: c, Size: len(plain), ContentType: ct, Encoding: tok, Csp: csp.header, SpecPath: tc.Path, SentLen: len(wire)}}
+	o := outcome{rep: report{Cfg: c, Size: len(plain), ContentType: ct, Encoding: tok, Csp: csp.String(), SpecPath: tc.Path, SentLen: len(wire)}}
 	head := plain
 	if len(head) > 160 {
 		head = head[:160]
@@ -583,9 +640,20 @@ func (e *env) exchange(tc tcase, size int, rng *rand.Rand) outcome {
 		allowed = append(allowed, csp.nonces[s])
 	}
 	sort.Strings(allowed)
+	// does the real nonce look like what the spec (configured as the tree was probed) predicts?
+	want := csp.nonces[tc.Nonce.N]
+	switch {
+	case tc.Nonce.N == "":
+		o.nonceAsModelled = !hasNonce
+	case tc.Nonce.Mangled:
+		o.nonceAsModelled = hasNonce && nonce != want && strings.HasPrefix(nonce, want)
+	default:
+		o.nonceAsModelled = hasNonce && nonce == want
+	}
 	if len(allowed) == 0 {
 		if hasNonce {
-			return bad("HtmlGetsExactlyOneScript", fmt.Sprintf("policy %q has no script nonce but the reload script carries nonce %q", csp.header, nonce))
+			o.nonceFailure = true
+			return bad("HtmlGetsExactlyOneScript", fmt.Sprintf("policy %q has no script nonce but the reload script carries nonce %q", csp.String(), nonce))
 		}
 	} else {
 		ok := false
@@ -595,9 +663,13 @@ func (e *env) exchange(tc tcase, size int, rng *rand.Rand) outcome {
 			}
 		}
 		if !ok {
-			return bad("HtmlGetsExactlyOneScript", fmt.Sprintf("policy %q: reload script nonce %q is not one of the script-src nonces %v", csp.header, nonce, allowed))
+			o.nonceFailure = true
+			if !hasNonce {
+				return bad("HtmlGetsExactlyOneScript", fmt.Sprintf("Content-Security-Policy %q: the reload script carries no nonce, the page's script nonce is %v (the browser blocks the script)", csp.String(), allowed))
+			}
+			return bad("HtmlGetsExactlyOneScript", fmt.Sprintf("Content-Security-Policy %q: reload script nonce %q is not one of the script-src nonces %v (the browser blocks the script)", csp.String(), nonce, allowed))
 		}
-		if nonce != csp.nonces[tc.Nonce] {
+		if !o.nonceAsModelled {
 			o.drift = "nonce is a valid script-src nonce but not the one parseNonce is modelled to pick"
 		}
 	}
@@ -630,34 +702,80 @@ func main() {
 	}
 	switch os.Args[1] {
 	case "probe":
-		e, done := newEnv()
-		defer done()
-		tc := tcase{Cfg: config{Body: "full", Ct: "html", Csp: "none", Enc: "unsupported", Req: "plain", Accept: "browser"}, MustPass: true, Bytes: "backend"}
-		o := e.exchange(tc, 600, rand.New(rand.NewSource(1)))
-		rule := "pass"
-		if o.invariant != "" {
-			rule = "rewrite"
-		}
-		vhlib.Summary(map[string]any{"rule": rule, "detail": o.detail})
-	case "selftest":
-		// binding self-test: corrupted predictions must be reported
+		// what does the tree do (a) with an unsupported Content-Encoding, (b) with a script nonce that is only in the
+		// second Content-Security-Policy header line? The answers select the spec constants.
+		tcs := loadCases(os.Args[2])
 		e, done := newEnv()
 		defer done()
 		rng := rand.New(rand.NewSource(1))
+		u := find(tcs, config{Body: "full", Ct: "html", Csp: "none", Enc: "unsupported", Req: "plain", Accept: "browser"})
+		u.MustPass, u.Bytes, u.Inserted = true, "backend", 0
+		ou := e.exchange(u, 600, rng)
+		rule := "pass"
+		if ou.invariant != "" {
+			rule = "rewrite"
+		}
+		l := find(tcs, config{Body: "full", Ct: "html", Csp: "linessecond", Enc: "none", Req: "plain", Accept: "browser"})
+		l.Nonce, l.Nonces = specNonce{N: "N1"}, []string{"N1"}
+		ol := e.exchange(l, 600, rng)
+		csprule := "policylist"
+		if ol.invariant != "" {
+			csprule = "firstline"
+		}
+		vhlib.Summary(map[string]any{"rule": rule, "detail": ou.detail, "csprule": csprule, "cspdetail": ol.detail})
+	case "selftest":
+		// binding self-test: corrupted predictions must be reported
+		tcs := loadCases(os.Args[2])
+		e, done := newEnv()
+		defer done()
+		rng := rand.New(rand.NewSource(1))
+		good := find(tcs, config{Body: "full", Ct: "html", Csp: "scriptsrc", Enc: "gzip", Req: "plain", Accept: "browser"})
 		// (a) a configuration that is rewritten, declared "must pass through"
-		a := e.exchange(tcase{Cfg: config{Body: "full", Ct: "html", Csp: "scriptsrc", Enc: "gzip", Req: "plain", Accept: "browser"}, MustPass: true, Bytes: "backend"}, 5000, rng)
+		ca := good
+		ca.MustPass, ca.Bytes = true, "backend"
+		a := e.exchange(ca, 5000, rng)
 		// (b) a policy with a script nonce, declared to have none
-		b := e.exchange(tcase{Cfg: config{Body: "full", Ct: "html", Csp: "scriptsrc", Enc: "br", Req: "plain", Accept: "browser"}, Inserted: 1, Nonces: nil}, 5000, rng)
+		cb := find(tcs, config{Body: "full", Ct: "html", Csp: "scriptsrc", Enc: "br", Req: "plain", Accept: "browser"})
+		cb.Nonces, cb.Nonce = nil, specNonce{}
+		b := e.exchange(cb, 5000, rng)
 		// (c) a pass-through configuration declared to be rewritten
-		c := e.exchange(tcase{Cfg: config{Body: "full", Ct: "other", Csp: "none", Enc: "none", Req: "plain", Accept: "browser"}, Inserted: 1}, 5000, rng)
+		cc := find(tcs, config{Body: "full", Ct: "other", Csp: "none", Enc: "none", Req: "plain", Accept: "browser"})
+		cc.MustPass, cc.Inserted = false, 1
+		c := e.exchange(cc, 5000, rng)
 		// (d) the uncorrupted twin of (a) holds
-		d := e.exchange(tcase{Cfg: config{Body: "full", Ct: "html", Csp: "scriptsrc", Enc: "gzip", Req: "plain", Accept: "browser"}, Inserted: 1, Nonce: "N1", Nonces: []string{"N1"}}, 5000, rng)
+		d := e.exchange(good, 5000, rng)
 		vhlib.Summary(map[string]any{"a": a.invariant, "b": b.invariant, "c": c.invariant, "d": d.invariant + d.drift})
 	case "cases":
 		cases(os.Args[2:])
 	default:
 		vhlib.Fatal("unknown mode %s", os.Args[1])
 	}
+}
+
+func loadCases(path string) []tcase {
+	var tcs []tcase
+	err := vhlib.Each(path, func(line []byte) error {
+		var tc tcase
+		if err := json.Unmarshal(line, &tc); err != nil {
+			return err
+		}
+		tcs = append(tcs, tc)
+		return nil
+	})
+	if err != nil {
+		vhlib.Fatal("%v", err)
+	}
+	return tcs
+}
+
+func find(tcs []tcase, c config) tcase {
+	for _, tc := range tcs {
+		if tc.Cfg == c {
+			return tc
+		}
+	}
+	vhlib.Fatal("configuration %+v was not emitted by TLC", c)
+	return tcase{}
 }
 
 var boundarySizes = []int{4095, 4096, 4097, 32767, 32768, 32769, 65536}
@@ -765,7 +883,7 @@ func cases(args []string) {
 				if o.invariant != "" {
 					fails++
 					perInv[o.invariant]++
-					vhlib.Fail(decideBranch(tc.Path)+":"+o.invariant, o.invariant+": "+o.detail, o.rep)
+					vhlib.Fail(signature(tc, o), o.invariant+": "+o.detail, o.rep)
 				} else {
 					if tc.MustPass {
 						passed++
